@@ -60,7 +60,8 @@ def _ray():
             def pdf(cls, x, loc=0.0, scale=1.0):
                 with np.errstate(all='ignore'):
                     z = (np.asarray(x, dtype=float) - loc) / scale
-                    p = np.where(z >= 0, z * np.exp(-0.5 * z * z), 0.0) / scale
+                    zz = np.where(np.isfinite(z) & (z >= 0), z, 0.0)       # density 0 left of loc and at +inf
+                    p = zz * np.exp(-0.5 * zz * zz) / scale
                     return np.where(np.isnan(z) | ~(np.asarray(scale) > 0), np.nan, p)
         _RAY.append(Ray)
     return _RAY[0]
@@ -573,7 +574,7 @@ def model_family(q):
         fp2 = [('name', 'obj'), ('obj', 'name'), ('frozen', 'alias')]
         add('I2', 'I2', all_roots, [], [], [('a', 'b')], [('name', 'obj')], [False, True])
         add('CH2', 'CH2', all_roots, all_c1, [], perm2, fp2, [False, True])
-        c1 = ['nP1', 'n0P', 'uP1', 'u0P', 'uPP', 'eP1', 'e0P', 'bP2', 'bsP', 'tP1', 'tsP', 'rP1']
+        c1 = ['nP1', 'n0P', 'uP1', 'u0P', 'uP', 'eP1', 'e0P', 'bP2', 'bsP', 'tP1', 'tsP', 'rP1']
         r3 = ['u', 'n', 'e', 't']
         fp3 = [('name', 'obj', 'name'), ('obj', 'frozen', 'obj')]
         add('I3', 'I3', RQ + ['r'], [], [], [('a', 'b', 'c')], fp3, [False])
